@@ -89,6 +89,16 @@ def main():
     for _ in range(500 if quick else 6000):
         cases.append(gen_server_seq(rng, c.tier))
 
+    rp = P.replay_tokens()
+    if rp is not None:
+        cases = []
+        if rp and rp[0] == "srv":
+            cases = [P.scenario_of_line(rp)]
+        elif rp and rp[0] == "cache":
+            k = int(rp[3])
+            cases = [{"kind": "cache", "n": int(rp[1]), "cutoff": int(rp[2]),
+                      "calls": [(rp[4 + 2 * i], int(rp[5 + 2 * i])) for i in range(k)]}]
+
     def line(case):
         return cache_line(case) if case["kind"] == "cache" else P.line_of(case)
 
